@@ -1741,6 +1741,28 @@ fn is_pure_spec_expr(e: &syn::Expr) -> bool {
     }
 }
 
+
+/// R27 (constants): module-level `const` items of the file that the extracted text mentions and that nobody provides are copied along
+/// (a constant is data: copying it cannot change what the function does).  Returns the rendered items.
+fn referenced_consts(items: &[&syn::Item], text: &TokenStream, provided: &BTreeSet<String>, emitted: &mut BTreeSet<String>, cfg: &CfgEnv) -> Vec<syn::ItemConst> {
+    let mut idents: BTreeSet<String> = BTreeSet::new();
+    fn walk(ts: TokenStream, out: &mut BTreeSet<String>) {
+        for tt in ts { match tt { TokenTree::Ident(i) => { out.insert(i.to_string()); } TokenTree::Group(g) => walk(g.stream(), out), _ => {} } }
+    }
+    walk(text.clone(), &mut idents);
+    let mut out = vec![];
+    for it in items.iter() {
+        if let syn::Item::Const(c) = it {
+            let n = c.ident.to_string();
+            if cfg.keep(&c.attrs) && idents.contains(&n) && !provided.contains(&n) && !emitted.contains(&n) {
+                emitted.insert(n);
+                out.push(c.clone());
+            }
+        }
+    }
+    out
+}
+
 fn make_with_attr(with: &str) -> syn::Attribute {
     let ts: TokenStream = with
         .parse()
@@ -2078,6 +2100,13 @@ fn main() {
     // placeholder -> replacement text, filled as we go
     let mut pending: Vec<(usize, String)> = vec![]; // (fn index in gen.fns, key)
 
+    // constants the unit already has: listed `const X` items and anything the prelude text defines
+    let provided_consts: BTreeSet<String> = {
+        let mut o: BTreeSet<String> = unit_toml.item.iter().filter_map(|i| i.path.strip_prefix("const ").map(|x| x.trim().to_string())).collect();
+        for l in prelude.lines() { let t = l.trim(); if let Some(r) = t.strip_prefix("pub const ").or_else(|| t.strip_prefix("const ")) { if let Some(n) = r.split(':').next() { o.insert(n.trim().to_string()); } } }
+        o
+    };
+    let mut emitted_consts: BTreeSet<String> = BTreeSet::new();
     for spec in &unit_toml.item {
         let file_path: PathBuf = if let Some(rest) = spec.file.strip_prefix("GENERATED/") {
             generated.clone().unwrap_or_else(|| die("item needs --generated dir")).join(rest)
@@ -2235,6 +2264,31 @@ fn main() {
                 pending.push((gen.fns.len(), key));
                 gen.fns.push(fo);
                 fn_idx += 1;
+                {
+                    let item_refs: Vec<&syn::Item> = items.iter().collect();
+                    for mut c in referenced_consts(&item_refs, &f.to_token_stream(), &provided_consts, &mut emitted_consts, &cfg) {
+                        c.vis = syn::parse_quote!(pub);
+                        rw.filter_attrs(&mut c.attrs);
+                        struct HasCall(bool);
+                        impl<'ast> syn::visit::Visit<'ast> for HasCall {
+                            fn visit_expr_call(&mut self, _: &'ast syn::ExprCall) { self.0 = true; }
+                            fn visit_expr_method_call(&mut self, _: &'ast syn::ExprMethodCall) { self.0 = true; }
+                        }
+                        let mut hc = HasCall(false);
+                        syn::visit::Visit::visit_expr(&mut hc, &c.expr);
+                        gen.out.push_str("verus! {\n");
+                        if hc.0 {
+                            // an initialiser that calls a function is not a specification expression: the constant is kept as an exec
+                            // constant whose value is whatever the call returns (nothing is assumed about it)
+                            let (n, ty, init) = (&c.ident, &c.ty, &c.expr);
+                            gen.out.push_str(&format!("pub exec const {}: {} ensures true {{ {} }}\n", n, ty.to_token_stream(), init.to_token_stream()));
+                        } else {
+                            gen.out.push_str(&render_item(syn::Item::Const(c)));
+                        }
+                        gen.out.push_str("}\n");
+                        rw.rules.insert("R27".into());
+                    }
+                }
                 gen.out.push_str(&render_item(syn::Item::Fn(f)));
                 gen.out.push('\n');
             }
